@@ -93,3 +93,137 @@ def _l_cusum(a, b, x, y, A, B):
     prem = [a > 0, b > 0, x >= 0, y >= 0, x * x == b / (n * a), y * y == a / (n * b)]
     concl = (x * A - y * B) * (x * A - y * B) == A * A / a + B * B / b - (A + B) * (A + B) / n
     return prem, concl
+
+
+# ----------------------------------------------------------------------------- data spec functions over a 2-D real array symbol
+# SUM_X(j,s,e) = sum_{i in [s,e)} X[i,j];  SSQ_X = sum of squares;  SQDEV_X(j,s,e,mu) = sum (X[i,j]-mu)^2
+# RSS_X(j,s,e) = SQDEV_X(j,s,e, SUM_X(j,s,e)/(e-s))   -- "computed directly from the rows X[s:e]" (C01)
+_I, _R = z3.IntSort(), z3.RealSort()
+_DATA = {}
+
+
+def data_theory(eng, st, X: Arr):
+    """Function symbols of the data theory of array X (X is materialised to a symbol if it is a closure)."""
+    if X.rank != 2:
+        raise Unsupported("data theory needs a 2-D array")
+    if X.fn is None:
+        X2 = eng.materialise(st, X, "data")
+        X.fn = X2.fn          # remember on the closure so later uses agree
+    key = X.fn.name()
+    if key not in _DATA:
+        _DATA[key] = {
+            "X": X.fn,
+            "SUM": z3.Function("SUM_" + key, _I, _I, _I, _R),
+            "SSQ": z3.Function("SSQ_" + key, _I, _I, _I, _R),
+            "SQDEV": z3.Function("SQDEV_" + key, _I, _I, _I, _R, _R),
+            "RSS": z3.Function("RSS_" + key, _I, _I, _I, _R),
+        }
+    th = _DATA[key]
+    tag = "datafacts_" + key
+    if tag not in st.ghost_fns:
+        st.ghost_fns[tag] = True
+        n = to_z3(X.shape[0])
+        j, s, e = z3.Ints("j!d s!d e!d")
+        mu = z3.Real("mu!d")
+        SUM, SSQ, SQDEV, RSS = th["SUM"], th["SSQ"], th["SQDEV"], th["RSS"]
+        rng = z3.And(0 <= s, s < e, e <= n)
+        # definition of RSS and the proved lemmas L_sqdev / L_rss (see LEMMA_PROOFS); no recursive definitions are exposed here
+        st.assume(z3.ForAll([j, s, e], z3.Implies(rng, RSS(j, s, e) == SQDEV(j, s, e, SUM(j, s, e) / z3.ToReal(e - s))), patterns=[RSS(j, s, e)]))
+        st.assume(z3.ForAll([j, s, e, mu], z3.Implies(z3.And(0 <= s, s <= e, e <= n),
+                                                     SQDEV(j, s, e, mu) == SSQ(j, s, e) - 2 * mu * SUM(j, s, e) + z3.ToReal(e - s) * mu * mu),
+                            patterns=[SQDEV(j, s, e, mu)]))
+        st.assume(z3.ForAll([j, s, e], z3.Implies(rng, RSS(j, s, e) == SSQ(j, s, e) - SUM(j, s, e) * SUM(j, s, e) / z3.ToReal(e - s)),
+                            patterns=[RSS(j, s, e)]))
+        st.assume(z3.ForAll([j, s, e], z3.Implies(rng, RSS(j, s, e) >= 0), patterns=[RSS(j, s, e)]))
+        eng.used_lemmas.update(["L_sqdev", "L_rss", "L_rss_nonneg"])
+    return th
+
+
+def _mk_data_fn(name):
+    def f(eng, st, X, j, s, e, *rest):
+        th = data_theory(eng, st, X)
+        args = [to_z3(j), to_z3(s), to_z3(e)] + [to_z3(to_real(r)) for r in rest]
+        return th[name](*args)
+    return f
+
+
+for _nm in ("SUM", "SSQ", "SQDEV", "RSS"):
+    SPEC_FUNCS[_nm] = _mk_data_fn(_nm)
+
+
+def _prefix_pred(square):
+    def pred(eng, st, S, X):
+        """PrefixSum(S, X): S has one more row than X, S[0,:]==0, S[i+1,j]==S[i,j]+X[i,j] (or its square).
+        When used as a hypothesis the proved consequence L_prefix (S[e,j]-S[s,j] == SUM_X(j,s,e)) is attached; the two
+        forms are equivalent by the lemma, so this is sound in any polarity. Goals get the plain definition."""
+        n, p = X.shape
+        from pyvc.state import forall, fresh_int
+        i, j = fresh_int("i"), fresh_int("j")
+        x = X.get(i, j)
+        inc = x * x if square else x
+        inc = to_z3(to_real(inc))
+        shape_ok = mk_and(num_cmp("==", S.shape[0], n + 1), num_cmp("==", S.shape[1], p))
+        zero = forall([j], z3.Implies(z3.And(j >= 0, j < to_z3(p)), to_z3(S.get(0, j)) == 0))
+        s1 = to_z3(S.get(i + 1, j))
+        rec = z3.ForAll([i, j], z3.Implies(z3.And(i >= 0, i < to_z3(n), j >= 0, j < to_z3(p)), s1 == to_z3(S.get(i, j)) + inc), patterns=[s1])
+        definition = mk_and(shape_ok, zero, rec)
+        if getattr(eng, "in_goal", False):
+            return definition
+        th = data_theory(eng, st, X)
+        F = th["SSQ"] if square else th["SUM"]
+        jj, s, e = z3.Ints("j!p s!p e!p")
+        lhs = to_z3(S.get(e, jj)) - to_z3(S.get(s, jj))
+        concl = z3.ForAll([jj, s, e], z3.Implies(z3.And(0 <= s, s <= e, e <= to_z3(n), 0 <= jj, jj < to_z3(p)), lhs == F(jj, s, e)),
+                          patterns=[F(jj, s, e)])
+        eng.used_lemmas.add("L_prefix")
+        return mk_and(definition, concl)
+    return pred
+
+
+SPEC_FUNCS["PrefixSum"] = _prefix_pred(False)
+SPEC_FUNCS["PrefixSumSq"] = _prefix_pred(True)
+
+
+# ---- proofs of the data lemmas, over generic symbols, by explicit induction (base + step, ground instances of the definitions)
+def _data_lemma_proofs():
+    X = z3.Function("X!L", _I, _I, _R)
+    S = z3.Function("S!L", _I, _I, _R)
+    SUM = z3.Function("SUM!L", _I, _I, _I, _R)
+    SSQ = z3.Function("SSQ!L", _I, _I, _I, _R)
+    SQDEV = z3.Function("SQDEV!L", _I, _I, _I, _R, _R)
+    n, j, s, e = z3.Ints("n!L j!L s!L e!L")
+    mu = z3.Real("mu!L")
+    # recursive definitions (ground instances at (j,s,e))
+    def defs(e_):
+        return [SUM(j, s, s) == 0, SSQ(j, s, s) == 0, SQDEV(j, s, s, mu) == 0,
+                z3.Implies(e_ >= s, z3.And(SUM(j, s, e_ + 1) == SUM(j, s, e_) + X(e_, j),
+                                           SSQ(j, s, e_ + 1) == SSQ(j, s, e_) + X(e_, j) * X(e_, j),
+                                           SQDEV(j, s, e_ + 1, mu) == SQDEV(j, s, e_, mu) + (X(e_, j) - mu) * (X(e_, j) - mu)))]
+    out = {}
+    # L_prefix: S[0]=0, S[i+1]=S[i]+X[i]  =>  S[e]-S[s] == SUM(j,s,e)   (induction on e from s)
+    i = z3.Int("i!L")
+    pre = [z3.ForAll([i], z3.Implies(z3.And(i >= 0, i < n), S(i + 1, j) == S(i, j) + X(i, j)), patterns=[S(i + 1, j)]), 0 <= s, s <= e, e < n]
+    out["L_prefix"] = [
+        (".base", defs(s), S(s, j) - S(s, j) == SUM(j, s, s)),
+        (".step", pre + defs(e) + [S(e, j) - S(s, j) == SUM(j, s, e)], S(e + 1, j) - S(s, j) == SUM(j, s, e + 1)),
+    ]
+    # L_sqdev: SQDEV(j,s,e,mu) == SSQ - 2 mu SUM + (e-s) mu^2
+    ih = SQDEV(j, s, e, mu) == SSQ(j, s, e) - 2 * mu * SUM(j, s, e) + z3.ToReal(e - s) * mu * mu
+    out["L_sqdev"] = [
+        (".base", defs(s), SQDEV(j, s, s, mu) == SSQ(j, s, s) - 2 * mu * SUM(j, s, s) + z3.ToReal(s - s) * mu * mu),
+        (".step", [s <= e] + defs(e) + [ih],
+         SQDEV(j, s, e + 1, mu) == SSQ(j, s, e + 1) - 2 * mu * SUM(j, s, e + 1) + z3.ToReal(e + 1 - s) * mu * mu),
+    ]
+    # L_rss: with RSS := SQDEV at mu = SUM/(e-s):  RSS == SSQ - SUM^2/(e-s)   (pure algebra from L_sqdev)
+    a, b, m_ = z3.Reals("ssq!L sum!L m!L")
+    out["L_rss"] = [("", [m_ > 0], a - 2 * (b / m_) * b + m_ * (b / m_) * (b / m_) == a - b * b / m_)]
+    # L_rss_nonneg: SQDEV(j,s,e,mu) >= 0 (induction), hence RSS >= 0
+    out["L_rss_nonneg"] = [
+        (".base", defs(s), SQDEV(j, s, s, mu) >= 0),
+        (".step", [s <= e] + defs(e) + [SQDEV(j, s, e, mu) >= 0], SQDEV(j, s, e + 1, mu) >= 0),
+    ]
+    return out
+
+
+for _nm in ("L_prefix", "L_sqdev", "L_rss", "L_rss_nonneg"):
+    LEMMA_PROOFS[_nm] = (lambda nm=_nm: _data_lemma_proofs()[nm])
